@@ -77,6 +77,19 @@ def handle (op : String) (j : Json) : Except String Json := do
       | some (w, rows) => Json.mkObj [("rows", intListList rows), ("width", nat w)]
       | none => errJ
     pure (reply m (some s))
+  | "pick" =>
+    -- a (possibly empty) program of selections, then one entry by integer index
+    let cols ← getIntListList j "cols"
+    let ops ← (← getArr j "ops").mapM parseOp
+    let ops := ops.map (·.1)
+    let i ← getInt j "i"
+    let f := fun (r : Option (Option (List Int))) => match r with
+      | some (some row) => Json.mkObj [("row", intList row)]
+      | some none => Json.mkObj [("err", str "index")]
+      | none => errJ
+    let m := f ((run ops cols).map (fun r => pickRow r i))
+    let s := f ((runRows ops (cols.length, toRows cols)).map (fun st => pickRows st.2 i))
+    pure (reply m (some s))
   | "roundtrip" =>
     -- rows -> table -> rows (from_entry_tuples / tolist)
     let rows ← getIntListList j "rows"
